@@ -2012,7 +2012,7 @@ class Tensor(object):
             # Split factor according to error budget
             left, right = tn.truncated_svd(
                 self.Us[mu],
-                eps=eps / np.sqrt(len(dim)),
+                eps=eps / np.sqrt(N),
                 rmax=rmax[mu],
                 left_ortho=True,
                 algorithm=algorithm,
